@@ -22,13 +22,14 @@ _REAL_MONO = time.monotonic
 class Pipe:
     """One direction of a byte stream."""
 
-    __slots__ = ("q", "capacity", "eof", "error", "total")
+    __slots__ = ("q", "capacity", "eof", "error", "total", "sticky_error")
 
     def __init__(self, capacity: int | None = None) -> None:
         self.q = bytearray()
         self.capacity = capacity  # None = unbounded
         self.eof = False
         self.error: OSError | None = None
+        self.sticky_error = False  # the error is reported by every read once the queue is empty (a reset connection)
         self.total = bytearray()  # everything ever written (oracle side)
 
     def free(self) -> int:
@@ -288,7 +289,9 @@ class FakeSocket(socket.socket):
         self.spurious_read = False
         if not rx.q:
             if rx.error is not None:
-                err, rx.error = rx.error, None
+                err = rx.error
+                if not getattr(rx, "sticky_error", False):
+                    rx.error = None
                 self.calls.append(("recv", "error", type(err).__name__))
                 raise err
             if rx.eof:
